@@ -252,45 +252,72 @@ def b1(e: Engine, rep: Report):
                 refs_bounce.append((f, n))
     if not refs_bounce or not calls_factory:
         rep.error('anchor vanished: _bounce / bounce_factory uses')
+    guarded_in = set()
     for m, n in refs_bounce:
-        rep.evaluations += 1
-        rep.check(m.qname == QUEUE + '._perm_fail', 'B1', m.qname,
-                  'reference to _bounce', 'a bounce is generated from %s, '
-                  'outside the null-sender guard of _perm_fail' % m.qname,
-                  loc=m.loc(n), reason='only in _perm_fail')
+        # judged below: every site that hands self._bounce to a pool is
+        # dominated by the null-sender test on the envelope it bounces
+        guarded_in.add(m.qname)
     for m, n in calls_factory:
         rep.evaluations += 1
         rep.check(m.qname == QUEUE + '._bounce', 'B1', m.qname,
                   'call of bounce_factory', 'the bounce factory is invoked '
                   'from %s, outside _bounce' % m.qname, loc=m.loc(n),
                   reason='only in _bounce')
-    ctx = e.method_ctx(QUEUE, '_perm_fail')
-    g = e.build(ctx)
-    fx = e.facts(g)
-    where = ctx.func.qname
-    rep.functions.add(where)
-    envp = '%s#%d' % (ctx.func.params[2], g.entry.frame.id)
-    sites = [n for n in g.nodes if n.kind == 'call' and any(
+    # _perm_fail leads to a bounce
+    pctx = e.method_ctx(QUEUE, '_perm_fail')
+    pg = e.build(pctx, inline=common.queue_inline(
+        e, also=()) if False else e.inline_same_self(
+        deny=['_remove', '_pool_spawn', '_pool_run', '_pool_imap',
+              '_bounce']), max_depth=3)
+    rep.functions.add(pctx.func.qname)
+    psites = [n for n in pg.nodes if n.kind == 'call' and any(
         ast.unparse(a).endswith('._bounce') for a in n.ast.args) or (
         n.kind in ('call', 'call_enter') and e.call_name(n) == '_bounce')]
-    if not sites:
-        rep.bad('B1', where, 'permanent failure produces a bounce',
+    if not psites:
+        rep.bad('B1', pctx.func.qname, 'permanent failure produces a bounce',
                 '_perm_fail no longer generates a bounce at all',
-                loc=ctx.func.loc())
-    for n in sites:
-        rep.evaluations += 1
-        st = fx.at(n)
-        rep.check(holds(st, (True, envp + '.sender')), 'B1', where,
-                  'bounce only for a non-empty sender',
-                  'a bounce is generated for a message with an empty '
-                  'sender: a failing bounce is bounced again (mail loop)',
-                  loc=n.loc(), reason='dominated by truthy(envelope.sender)')
-        # the envelope that is bounced is the one whose sender was tested
-        args = [canon(a, n.frame) for a in n.ast.args]
-        rep.check(envp in args, 'B1', where,
-                  'the tested envelope is the one bounced',
-                  'the sender test and the bounced envelope are different '
-                  'objects', loc=n.loc(), reason='same envelope')
+                loc=pctx.func.loc())
+    # wherever self._bounce is handed on: under the null-sender test of the
+    # envelope that is bounced
+    nsites_b1 = 0
+    qc = common.merged_class(e, QUEUE)
+    for mname, m in sorted(qc.methods.items()):
+        if m.qname not in guarded_in:
+            continue
+        ctx = Ctx(m, QUEUE)
+        g = e.build(ctx)
+        fx = e.facts(g)
+        where = ctx.func.qname
+        rep.functions.add(where)
+        sites = [n for n in g.nodes if n.kind == 'call' and any(
+            ast.unparse(a).endswith('._bounce') for a in n.ast.args) or (
+            n.kind in ('call', 'call_enter') and
+            e.call_name(n) == '_bounce')]
+        for n in sites:
+            nsites_b1 += 1
+            rep.evaluations += 1
+            st = fx.at(n)
+            # the envelope handed to _bounce: the argument after the method
+            envs = []
+            for i, a in enumerate(n.ast.args):
+                if ast.unparse(a).endswith('._bounce') and \
+                        i + 1 < len(n.ast.args):
+                    envs.append(n.ast.args[i + 1])
+            if e.call_name(n) == '_bounce' and n.ast.args:
+                envs.append(n.ast.args[0])
+            ok = bool(envs) and all(
+                holds(st, (True, canon(x, n.frame) + '.sender'))
+                for x in envs)
+            rep.check(ok, 'B1', where,
+                      'bounce only for a non-empty sender',
+                      'a bounce is generated for a message with an empty '
+                      'sender (no `if envelope.sender` on the envelope '
+                      'that is bounced dominates this site): a failing '
+                      'bounce is bounced again (mail loop)',
+                      loc=n.loc(), reason='dominated by truthy(<bounced '
+                      'envelope>.sender)')
+    if nsites_b1 < 1:
+        rep.error('anchor vanished: sites that hand self._bounce to a pool')
 
 
 def b2(e: Engine, rep: Report):
@@ -457,10 +484,11 @@ def b3(e: Engine, rep: Report):
                     '%s no longer bounces per reply group' % meth,
                     loc=cctx.func.loc())
             continue
+        bnames = common.bouncers(e)
         for l2 in loops:
             counts = common.per_iteration_counts(
-                cg, l2, lambda n: 1 if n.kind in ('call', 'call_enter') and
-                e.call_name(n) == '_perm_fail' else 0)
+                cg, l2, lambda n: 1 if common.bounce_event(e, n, bnames)
+                else 0)
             rep.check(counts == frozenset([1]), 'B3', cctx.func.qname,
                       'exactly one _perm_fail per group',
                       '%s _perm_fail calls per reply group' % sorted(counts),
@@ -469,7 +497,7 @@ def b3(e: Engine, rep: Report):
             tg = [ast.unparse(x) for x in ast.walk(l2.ast.target)
                   if isinstance(x, ast.Name)]
             for n in cg.calls():
-                if e.call_name(n) == '_perm_fail' and any(
+                if e.call_name(n) in bnames and any(
                         sc.kind == 'loop' and sc.ast is l2.ast
                         for sc in n.scopes):
                     args = [ast.unparse(a) for a in n.ast.args]
@@ -482,6 +510,7 @@ def b3(e: Engine, rep: Report):
     # own group or the reply carried by the whole-message exception
     c = common.merged_class(e, QUEUE)
     nsites = 0
+    bnames_all = common.bouncers(e)
     for mname, m in sorted(c.methods.items()):
         handler_names = {h.name for h in ast.walk(m.node)
                          if isinstance(h, ast.ExceptHandler) and h.name}
@@ -512,13 +541,24 @@ def b3(e: Engine, rep: Report):
                 handler_names.add(prm)
         for n in walk_own(m.node):
             if not (isinstance(n, ast.Call) and
-                    ast.unparse(n.func) == 'self._perm_fail' and
-                    len(n.args) >= 3):
+                    isinstance(n.func, ast.Attribute) and
+                    isinstance(n.func.value, ast.Name) and
+                    n.func.value.id == 'self' and
+                    n.func.attr in bnames_all and len(n.args) >= 2 and
+                    not any(ast.unparse(a).endswith('._bounce')
+                            for a in n.args)):
                 continue
             nsites += 1
             rep.evaluations += 1
-            r = n.args[2]
-            ok = (isinstance(r, ast.Name) and r.id in group_vars) or (
+            r = n.args[-1]
+            # a bouncer that hands on the reply it was given: its callers
+            # are the ones judged
+            passthrough = mname in bnames_all and isinstance(r, ast.Name) \
+                and r.id in m.params and not any(
+                    isinstance(x, ast.Name) and x.id == r.id and
+                    isinstance(x.ctx, ast.Store) for x in ast.walk(m.node))
+            ok = passthrough or (
+                isinstance(r, ast.Name) and r.id in group_vars) or (
                 isinstance(r, ast.Attribute) and r.attr == 'reply' and
                 isinstance(r.value, ast.Name) and
                 r.value.id in handler_names) or (
